@@ -428,3 +428,62 @@ func evalPureFn(fn *ssa.Function, bind func(v ssa.Value) (constant.Value, bool))
 	}
 	return nil, false
 }
+
+// skipGuards returns the branch outcomes that decide whether instruction at is
+// skipped while the computation goes on: a transitive control dependence g of
+// at whose other outcome (1) cannot reach at any more (in the same loop
+// iteration) and (2) reaches code that also follows at (a rejoin point, a
+// return reachable from at, or the next iteration). Early exits (the other
+// outcome only leaves through a return that does not follow at) are not skips,
+// and neither are earlier decisions after which at is still reached.
+func skipGuards(at ssa.Instruction) []guardAtom {
+	var out []guardAtom
+	ab := at.Block()
+	after := map[*ssa.BasicBlock]bool{}
+	for _, b := range at.Parent().Blocks {
+		if core.Reachable(ab, b, nil) {
+			after[b] = true
+		}
+	}
+	for _, g := range controlGuards(at) {
+		ifi, ok := g.At.(*ssa.If)
+		if !ok {
+			continue
+		}
+		gb := ifi.Block()
+		other := gb.Succs[1-g.Succ]
+		if other == ab || reachAvoid(other, ab, map[*ssa.BasicBlock]bool{gb: true}) {
+			continue
+		}
+		rejoin := false
+		seen := map[*ssa.BasicBlock]bool{}
+		stack := []*ssa.BasicBlock{other}
+		for len(stack) > 0 && !rejoin {
+			b := stack[len(stack)-1]
+			stack = stack[:len(stack)-1]
+			if seen[b] || b == ab || b == gb {
+				continue
+			}
+			seen[b] = true
+			if after[b] {
+				rejoin = true
+			}
+			stack = append(stack, b.Succs...)
+		}
+		if rejoin {
+			out = append(out, g)
+		}
+	}
+	return out
+}
+
+// reachAvoid: to is reachable from from (inclusive) without entering avoid.
+func reachAvoid(from, to *ssa.BasicBlock, avoid map[*ssa.BasicBlock]bool) bool {
+	if from == to {
+		return true
+	}
+	if avoid[from] {
+		return false
+	}
+	return core.Reachable(from, to, avoid)
+}
